@@ -1243,3 +1243,278 @@ Proof.
     { rewrite Hms. unfold withv. now rewrite filter_map_length. }
     split; [now rewrite Hlen|]. rewrite <- Hlen. destruct ms; [contradiction | simpl; lia].
 Qed.
+
+From Coq Require Import Qround.
+
+(* ------------------------------------------------------------------ quantile *)
+(* the order quantile() sorts by: NaN first, then ascending *)
+Definition nf_le (a b : fval) : bool := is_nan a || (negb (is_nan b) && fle a b).
+
+Lemma insert_by_perm : forall x l, Permutation (insert_by heap_less x l) (x :: l).
+Proof.
+  induction l as [|y l IH]; simpl; [reflexivity|].
+  destruct (heap_less y x || negb (heap_less x y)); [|reflexivity].
+  eapply Permutation_trans; [apply perm_skip; exact IH | apply perm_swap].
+Qed.
+
+Lemma heap_less_nf_le : forall a b, heap_less a b = true -> nf_le a b = true.
+Proof.
+  intros a b H. unfold heap_less, nf_le in *. destruct (is_nan a); [reflexivity|]. simpl in *.
+  destruct (flt_nonnan _ _ H) as [_ Hb]. rewrite Hb. simpl. now apply flt_fle.
+Qed.
+
+Lemma not_heap_less_nf_le : forall a b, heap_less a b = false -> nf_le b a = true.
+Proof.
+  intros a b H. unfold heap_less, nf_le in *. apply orb_false_iff in H as [Ha Hlt].
+  destruct (is_nan b) eqn:Hb; [reflexivity|]. rewrite Ha. simpl. now apply not_flt_fle.
+Qed.
+
+Lemma insert_by_sorted : forall x l,
+  Sorted (fun a b => nf_le a b = true) l -> Sorted (fun a b => nf_le a b = true) (insert_by heap_less x l).
+Proof.
+  induction l as [|y l IH]; intro Hs; simpl; [repeat constructor|].
+  destruct (heap_less y x || negb (heap_less x y)) eqn:E.
+  - assert (Hyx : nf_le y x = true).
+    { apply orb_true_iff in E as [E|E]; [now apply heap_less_nf_le|].
+      apply negb_true_iff in E. now apply not_heap_less_nf_le. }
+    inversion Hs as [|? ? Hs' Hhd]; subst. constructor; [now apply IH|].
+    destruct l as [|z l]; simpl.
+    + constructor. exact Hyx.
+    + destruct (heap_less z x || negb (heap_less x z)); constructor; [now inversion Hhd | exact Hyx].
+  - apply orb_false_iff in E as [_ E]. apply negb_false_iff in E.
+    constructor; [assumption | constructor; now apply heap_less_nf_le].
+Qed.
+
+Lemma sort_by_snoc : forall l x, sort_by heap_less (l ++ [x]) = insert_by heap_less x (sort_by heap_less l).
+Proof. intros. unfold sort_by. now rewrite fold_left_app. Qed.
+
+Lemma sort_by_spec : forall l,
+  Permutation (sort_by heap_less l) l /\ Sorted (fun a b => nf_le a b = true) (sort_by heap_less l).
+Proof.
+  induction l as [|x l [IHp IHs]] using rev_ind; [split; [reflexivity | constructor]|].
+  rewrite sort_by_snoc. split.
+  - eapply Permutation_trans; [apply insert_by_perm|].
+    eapply Permutation_trans; [apply perm_skip; exact IHp | apply Permutation_cons_append].
+  - now apply insert_by_sorted.
+Qed.
+
+Lemma qfloor_Qfloor : forall q, qfloor q = Qfloor q.
+Proof. intros [n d]. reflexivity. Qed.
+
+(* quantile(phi, values) for 0 <= phi <= 1: the values are sorted NaN-first ascending, the rank
+   phi*(n-1) is split into its integral part lo (0 <= lo <= n-1) and weight 0 <= w < 1, and the
+   result is s[lo]*(1-w) + s[min(n-1, lo+1)]*w computed in float arithmetic *)
+Lemma quantile_spec : forall ovf (q : Q) (vals : list fval),
+  vals <> [] -> (0 <= q)%Q -> (q <= 1)%Q ->
+  let s := sort_by heap_less vals in
+  let n := Z.of_nat (length vals) in
+  let rank := (q * inject_Z (n - 1))%Q in
+  let lo := qfloor rank in
+  let hi := Z.min (n - 1) (lo + 1) in
+  let w := (rank - inject_Z lo)%Q in
+  Permutation s vals /\ Sorted (fun a b => nf_le a b = true) s /\
+  0 <= lo <= n - 1 /\ lo <= hi <= n - 1 /\ (0 <= w)%Q /\ (w < 1)%Q /\
+  quantile ovf (FFin q) vals =
+    fadd ovf (fmul ovf (nth (Z.to_nat lo) s FNaN) (FFin (1 - w)))
+             (fmul ovf (nth (Z.to_nat hi) s FNaN) (FFin w)).
+Proof.
+  intros ovf q vals Hne Hq0 Hq1 s n rank lo hi w.
+  destruct (sort_by_spec vals) as [Hp Hs]. split; [exact Hp|]. split; [exact Hs|].
+  assert (Hn : 1 <= n) by (unfold n; destruct vals; [contradiction | simpl; lia]).
+  assert (Hr0 : (0 <= rank)%Q).
+  { unfold rank. apply Qmult_le_0_compat; [assumption|]. unfold Qle. simpl. lia. }
+  assert (Hr1 : (rank <= inject_Z (n - 1))%Q).
+  { unfold rank. rewrite <- (Qmult_1_l (inject_Z (n - 1))) at 2.
+    apply Qmult_le_compat_r; [assumption|]. unfold Qle. simpl. lia. }
+  assert (Hfl : (inject_Z lo <= rank)%Q) by (unfold lo; rewrite qfloor_Qfloor; apply Qfloor_le).
+  assert (Hfu : (rank < inject_Z (lo + 1))%Q) by (unfold lo; rewrite qfloor_Qfloor; apply Qlt_floor).
+  assert (Hlo0 : 0 <= lo).
+  { destruct (Z_le_gt_dec 0 lo) as [|Hneg]; [assumption|]. exfalso.
+    assert (Hc : (inject_Z (lo + 1) <= inject_Z 0)%Q) by (rewrite <- Zle_Qle; lia).
+    apply (Qlt_irrefl rank). eapply Qlt_le_trans; [exact Hfu|]. eapply Qle_trans; [exact Hc | exact Hr0]. }
+  assert (Hlo1 : lo <= n - 1).
+  { rewrite Zle_Qle. eapply Qle_trans; [exact Hfl | exact Hr1]. }
+  split; [lia|]. split; [unfold hi; lia|].
+  split; [unfold w; lra|]. split.
+  { unfold w. rewrite inject_Z_plus in Hfu. change (inject_Z 1) with 1%Q in Hfu. lra. }
+  unfold quantile. destruct vals as [|v0 vals']; [contradiction|].
+  replace (Qltb q 0) with false by (symmetry; unfold Qltb; apply negb_false_iff; now apply Qle_bool_iff).
+  replace (Qltb 1 q) with false by (symmetry; unfold Qltb; apply negb_false_iff; now apply Qle_bool_iff).
+  fold n. fold rank. fold lo. rewrite (Z.max_r 0 lo) by assumption. fold hi. fold w. reflexivity.
+Qed.
+
+(* FINDING witness: quantile(1, {1, +Inf}) is NaN (the maximum +Inf times weight 0), and so is
+   the quantile of a single +Inf value *)
+Lemma quantile_zero_weight_inf : forall ovf,
+  quantile ovf (FFin 1) [FFin 1; FInf false] = FNaN /\
+  quantile ovf (FFin (1 # 2)) [FInf false] = FNaN /\
+  agg_max (FFin 1) [FInf false] = FInf false.
+Proof. intro ovf. repeat split. Qed.
+
+(* ------------------------------------------------------------------ the many-to-many error is complete *)
+Lemma has_dup_labels_not_NoDup : forall l, has_dup_labels l = true -> ~ NoDup l.
+Proof.
+  induction l as [|a l IH]; intros H Hnd; simpl in H; [discriminate|].
+  inversion Hnd as [|? ? Hnot Hnd']; subst.
+  apply orb_true_iff in H as [H|H]; [apply mem_labels_In in H; contradiction | now apply IH].
+Qed.
+
+(* whenever both operands are non-empty and two right-hand series share a join signature, the
+   operation fails with the many-to-many error (one-to-one and group_left) *)
+Lemma vector_binop_dup_complete : forall ovf op rb m lhs rhs,
+  m_card m <> OneToMany -> lhs <> [] -> rhs <> [] ->
+  has_dup_labels (map (fun r : sample => signature (m_on m) (m_labels m) (fst r)) rhs) = true ->
+  vector_binop ovf op rb m lhs rhs = RErr ErrDupRight.
+Proof.
+  intros ovf op rb m lhs rhs Hcard Hl Hr Hdup. unfold vector_binop.
+  destruct lhs as [|l0 lhs]; [contradiction|]. destruct rhs as [|r0 rhs]; [contradiction|].
+  cbn [andb orb].
+  replace (match m_card m with OneToMany => true | _ => false end) with false
+    by (destruct (m_card m); [reflexivity | reflexivity | contradiction]).
+  destruct (build_right (signature (m_on m) (m_labels m)) (r0 :: rhs) []) as [rmap|] eqn:Eb; [|reflexivity].
+  exfalso. apply build_right_spec in Eb; [|constructor]. destruct Eb as [Hrmap Hnd].
+  rewrite Hrmap in Hnd. cbn [app] in Hnd. rewrite map_map in Hnd.
+  exact (has_dup_labels_not_NoDup _ Hdup Hnd).
+Qed.
+
+(* ------------------------------------------------------------------ group_right *)
+Lemma labels_eqb_sym : forall a b, labels_eqb a b = labels_eqb b a.
+Proof.
+  intros a b. destruct (labels_eqb a b) eqn:E.
+  - apply labels_eqb_eq in E. subst. symmetry. apply labels_eqb_refl.
+  - symmetry. apply labels_eqb_neq. apply labels_eqb_neq in E. congruence.
+Qed.
+
+Lemma flat_map_app_perm : forall {A B} (f g : A -> list B) l,
+  Permutation (flat_map (fun a => f a ++ g a) l) (flat_map f l ++ flat_map g l).
+Proof.
+  intros A B f g l. induction l as [|a l IH]; simpl; [reflexivity|].
+  rewrite <- !app_assoc. apply Permutation_app_head.
+  eapply Permutation_trans; [apply Permutation_app_head; exact IH|].
+  rewrite !app_assoc. apply Permutation_app_tail. apply Permutation_app_comm.
+Qed.
+
+Lemma flat_map_if_filter : forall {A B} (p : A -> bool) (h : A -> B) l,
+  flat_map (fun a => if p a then [h a] else []) l = map h (filter p l).
+Proof. intros A B p h l. induction l as [|a l IH]; simpl; [reflexivity|]. destruct (p a); simpl; now rewrite IH. Qed.
+
+Lemma flat_map_comp : forall {A B C} (f : B -> list C) (g : A -> list B) l,
+  flat_map f (flat_map g l) = flat_map (fun a => flat_map f (g a)) l.
+Proof. intros. induction l as [|a l IH]; simpl; [reflexivity | now rewrite flat_map_app, IH]. Qed.
+
+(* the matched pairs enumerated right-operand-major are a permutation of the pairs enumerated
+   left-operand-major *)
+Lemma pairs_swap : forall {A B} (p : A -> B -> bool) (ls : list A) (rs : list B),
+  Permutation (flat_map (fun r => map (fun l => (l, r)) (filter (fun l => p l r) ls)) rs)
+              (flat_map (fun l => map (fun r => (l, r)) (filter (fun r => p l r) rs)) ls).
+Proof.
+  intros A B p ls rs. induction ls as [|l0 ls IH].
+  - simpl. induction rs as [|r rs IHr]; simpl; [reflexivity | exact IHr].
+  - cbn [flat_map].
+    eapply Permutation_trans; [|apply Permutation_app_head; exact IH].
+    rewrite <- (flat_map_if_filter (fun r => p l0 r) (fun r => (l0, r)) rs).
+    eapply Permutation_trans; [|apply flat_map_app_perm].
+    apply Permutation_refl'. apply flat_map_ext'. intro r. cbn [filter].
+    destruct (p l0 r); reflexivity.
+Qed.
+
+Section GroupRight.
+Variable ovf : Q -> bool.
+
+Definition pair_out (op : bop) (rb : bool) (m : matching) (p : sample * sample) : list sample :=
+  let x := spec_pair_out ovf op rb m p in
+  if snd x then [(snd (fst (fst x)), snd (fst x))] else [].
+
+Lemma spec_binop_out_pair_out : forall op rb m lhs rhs,
+  spec_binop_out ovf op rb m lhs rhs = flat_map (pair_out op rb m) (spec_pairs m lhs rhs).
+Proof.
+  intros. unfold spec_binop_out. generalize (spec_pairs m lhs rhs). intro l.
+  induction l as [|a l IH]; simpl; [reflexivity | now rewrite IH].
+Qed.
+
+Lemma do_binop_out_swapped : forall op rb m st ls rs sg st',
+  m_card m = OneToMany ->
+  do_binop ovf op rb m st ls rs sg = inr st' ->
+  b_out st' = b_out st ++ pair_out op rb m (rs, ls).
+Proof.
+  intros op rb m st ls rs sg st' Hcard H. unfold do_binop in H. unfold pair_out, spec_pair_out.
+  rewrite Hcard in *. cbn [fst snd].
+  destruct (mem_labels _ _); [discriminate|]. cbn [b_out b_matched1 b_matchedN] in H.
+  destruct (snd (elem_binop ovf op (snd rs) (snd ls))) eqn:Ek; destruct rb; cbn [negb andb orb] in *;
+    inversion H; subst; cbn [b_out]; try reflexivity; now rewrite app_nil_r.
+Qed.
+
+Lemma lhs_loop_out_swapped : forall op rb m sigf rmap many st st',
+  m_card m = OneToMany ->
+  lhs_loop ovf op rb m sigf rmap None many st = inr st' ->
+  b_out st' = b_out st ++
+    flat_map (fun ls => match assoc_labels (sigf (fst ls)) rmap with
+                        | Some rs => pair_out op rb m (rs, ls) | None => [] end) many.
+Proof.
+  induction many as [|ls many IH]; intros st st' Hcard H; simpl in H.
+  - inversion H. now rewrite app_nil_r.
+  - cbn [flat_map].
+    destruct (assoc_labels (sigf (fst ls)) rmap) as [rs|] eqn:E.
+    + destruct (do_binop ovf op rb m st ls rs (sigf (fst ls))) as [e|st1] eqn:Ed; [discriminate|].
+      apply IH in H; [|assumption]. rewrite H, (do_binop_out_swapped _ _ _ _ _ _ _ _ Hcard Ed), <- app_assoc.
+      reflexivity.
+    + apply IH in H; [|assumption]. rewrite H. reflexivity.
+Qed.
+
+(* group_right without fill modifiers: a returned vector is a permutation of the documented one
+   (the engine iterates the right operand), and the left ("one") side has unique signatures *)
+Lemma vector_binop_group_right : forall op rb m lhs rhs out,
+  m_card m = OneToMany -> m_fill_l m = None -> m_fill_r m = None ->
+  vector_binop ovf op rb m lhs rhs = RVec out ->
+  Permutation out (spec_binop_out ovf op rb m lhs rhs) /\
+  has_dup_labels (map fst out) = false /\
+  (lhs = [] \/ rhs = [] \/
+   NoDup (map (fun l : sample => signature (m_on m) (m_labels m) (fst l)) lhs)).
+Proof.
+  intros op rb m lhs rhs out Hcard Hfl Hfr H. unfold vector_binop in H. rewrite Hfl, Hfr, Hcard in H.
+  assert (Hspec0 : forall l r : list sample, l = [] \/ r = [] -> spec_binop_out ovf op rb m l r = []).
+  { intros l r [Hl|Hr]; unfold spec_binop_out, spec_pairs; rewrite Hfl, Hfr; subst.
+    - reflexivity.
+    - simpl. rewrite !app_nil_r. induction l as [|a l IHl]; [reflexivity|]. simpl. exact IHl. }
+  destruct lhs as [|l0 lhs].
+  { cbn in H. destruct rhs; cbn in H; inversion H; subst;
+      (split; [rewrite Hspec0; [reflexivity | now left] | split; [reflexivity | now left]]). }
+  destruct rhs as [|r0 rhs].
+  { cbn in H. inversion H; subst. split; [rewrite Hspec0; [reflexivity | now right] | split; [reflexivity | right; now left]]. }
+  cbn [andb orb] in H.
+  set (sigf := signature (m_on m) (m_labels m)) in *.
+  destruct (build_right sigf (l0 :: lhs) []) as [rmap|] eqn:Eb; [|discriminate].
+  apply build_right_spec in Eb; [|constructor]. destruct Eb as [Hrmap Hnd]. cbn [app] in Hrmap.
+  destruct (lhs_loop ovf op rb m sigf rmap None (r0 :: rhs) (mkBst [] [] [])) as [e|st] eqn:El; [discriminate|].
+  apply lhs_loop_out_swapped in El; [|assumption]. cbn [b_out app] in El.
+  unfold check_same in H. destruct (has_dup_labels (map fst (b_out st))) eqn:Ed; [discriminate|].
+  inversion H; subst out. clear H.
+  assert (Hnd' : NoDup (map (fun l : sample => sigf (fst l)) (l0 :: lhs))).
+  { rewrite Hrmap in Hnd. rewrite map_map in Hnd. exact Hnd. }
+  split; [|split; [assumption | right; right; exact Hnd']].
+  rewrite El, spec_binop_out_pair_out. unfold spec_pairs. rewrite Hfl, Hfr, !app_nil_r. fold sigf.
+  set (L := l0 :: lhs) in *. set (R := r0 :: rhs) in *.
+  match goal with |- Permutation ?x _ =>
+    assert (E : x = flat_map (pair_out op rb m)
+       (flat_map (fun r : sample => map (fun l : sample => (l, r))
+                    (filter (fun l : sample => labels_eqb (sigf (fst l)) (sigf (fst r))) L)) R)) end.
+  { symmetry. rewrite flat_map_comp. apply flat_map_ext'. intro r.
+    rewrite (filter_ext _ (fun l : sample => labels_eqb (sigf (fst r)) (sigf (fst l))))
+      by (intro l; apply labels_eqb_sym).
+    rewrite (assoc_filter sigf (sigf (fst r)) L Hnd'), <- Hrmap.
+    destruct (assoc_labels (sigf (fst r)) rmap); cbn [map flat_map]; [now rewrite app_nil_r | reflexivity]. }
+  rewrite E. apply Permutation_flat_map.
+  apply (pairs_swap (fun (l r : sample) => labels_eqb (sigf (fst l)) (sigf (fst r))) L R).
+Qed.
+End GroupRight.
+
+(* ------------------------------------------------------------------ limitk *)
+Lemma k_group_limitk : forall k (members : list sample), 0 <= k ->
+  let out := k_group ALimitk k members in
+  Z.of_nat (length out) = Z.min k (Z.of_nat (length members)) /\
+  exists rest, members = out ++ rest.
+Proof.
+  intros k members Hk. unfold k_group. split.
+  - rewrite firstn_length. lia.
+  - exists (skipn (Z.to_nat k) members). symmetry. apply firstn_skipn.
+Qed.
